@@ -121,6 +121,8 @@ def gen(rng, tier, i):
     variants.append("com_moving_linear" if small else rng.choice(["com_moving_linear", "com_moving_angular"]))
     if rng.random() < 0.5:
         variants.append("crash_resume")
+    if rng.random() < 0.5:
+        variants.append("reused_driver")
     cfg["variants"] = variants if cfg["driver"] == "stub" else variants[:1]
     cfg["com_stride"] = rng.randint(1, 5)
     return cfg
@@ -331,6 +333,11 @@ def _execute(record, root):
         if var == "reuse_off":
             c = member(cfg, 1, reuse_P=False)
             crashes = ()
+        elif var == "reused_driver":
+            # the same MD driver object first ran another batch of the same shape (other elements, other masses)
+            pre = mdsim.same_shape_batch(cfg["batch"], core.rng_for("c08reuse", cfg["seed"]))
+            c = member(cfg, 1, pre_run={"batch": pre, "steps": 3})
+            crashes = ()
         elif var in ("com_linear", "com_angular"):
             # start from the base run's step-0 phase-space point (P = L = 0 there): periodic removal is then
             # mathematically a no-op.  (A fresh draw would legitimately differ: the degrees of freedom count
@@ -387,7 +394,7 @@ def _execute(record, root):
             sv, xv, vv, *_ = _series(data, m)
             amp = max(np.abs(x - x[0]).max(), 1e-6)
             dev = np.abs(xv - x).max() / amp
-            exact = var in ("crash_resume",) or (var == "reuse_off" and not real_drv)
+            exact = var in ("crash_resume", "reused_driver") or (var == "reuse_off" and not real_drv)
             bound = 0.0 if exact else (tol["variant_rel_real"] if real_drv else tol["variant_rel"])
             worst(f"variant_{var}_dev", dev)
             if dev > bound:
